@@ -133,9 +133,17 @@ class GBook:
             anc = [a for a in formulas if a != b and b in self.reach([a])]
             pick = rng.choice(anc + [b]) if (anc and rng.random() < 0.8) else b      # self-reference is the 1-cycle
             txt = self.cells[b]
-            how = rng.choice(['plus', 'if', 'sum'])
+            how = rng.choice(['plus', 'if', 'sum', 'iferror', 'iferror-fallback', 'ifs', 'and'])
             r = self.ref(b[0], pick)
-            if how == 'plus':
+            if how == 'iferror':
+                self.cells[b] = '=IFERROR(%s,%s)' % (r, txt[1:])          # the cycle enters through the guarded argument
+            elif how == 'iferror-fallback':
+                self.cells[b] = '=IFERROR(%s,%s)' % (txt[1:], r)          # … or through the fallback
+            elif how == 'ifs':
+                self.cells[b] = '=IFS(TRUE,%s,FALSE,%s)' % (txt[1:], r)   # a pair that is never reached
+            elif how == 'and':
+                self.cells[b] = '=IF(AND(0,%s),1,%s)' % (r, txt[1:])
+            elif how == 'plus':
                 self.cells[b] = '=(%s+%s)' % (txt[1:], r)
             elif how == 'if':
                 self.cells[b] = '=IF(1,%s,%s)' % (txt[1:], r)       # a branch that is never taken still is a dependency
@@ -171,7 +179,7 @@ def run(tier, seed):
     chk.rule = ('random dependency graphs to ~40 cells over 1-3 sheets (single references, areas overlapping formula cells, other sheets, cells beyond the used '
                 'range, shared dependencies; dependency direction independent of sheet position), every cell as entry: the set of generated cell members vs '
                 'the Lean descent (model) and vs reachability (spec); value of every slice member under the slice class vs the whole-workbook class; cyclic '
-                'variants (self reference, cycles through references, areas and IF branches never taken): outcome class for every entry and for the whole file; two '
+                'variants (self reference, cycles through references, areas, IF / IFS branches never taken, IFERROR arguments, AND arguments): outcome class for every entry and for the whole file; two '
                 'long-lived parsers that keep their entry cell across all workbooks must return the slice a fresh parser returns. '
                 'distinct = distinct (workbook, entry)')
     chk.assumptions += ['sub-expression methods (_s_c_r_k) are not in the abstract model; their effect is covered by the slice-vs-whole value comparison',
@@ -223,6 +231,17 @@ def run(tier, seed):
                     except Exception:  # noqa
                         again = None
                     chk.count('reused-parser:' + name)
+                    try:
+                        second = rp.ask_again()
+                    except RecursionError:
+                        second = None
+                    except Exception:  # noqa
+                        second = None
+                    if second != again:
+                        chk.violation({'why': 'asked again without any change, the parser does not repeat its answer (the same text, or the same rejection)', 'entry': e,
+                                       'book': b, 'first': 'rejected' if again is None else 'K%d' % len(members(again)),
+                                       'second': 'rejected' if second is None else ('None returned' if second is None else 'K%d' % len(members(second))),
+                                       'stream': 'reused-parser', 'workbook': repr(book.cells)[:1200]})
                     if again != text_e:
                         chk.violation({'why': 'a parser that translated other workbooks before, keeping its entry cell, does not return the slice a fresh parser returns',
                                        'entry': e, 'spelling': repr(spelled), 'book': b, 'fresh': None if text_e is None else 'members ' + got,
